@@ -206,12 +206,22 @@ func c01Configs() (parse []Config, compile []Config) {
 		for _, d := range allDists {
 			compile = append(compile, Config{Dist: d, ABI: 3, Version: "3.0"}, Config{Dist: d, ABI: 4, Version: "4.1", Full: true})
 		}
+		// the ABI and the version are separate options: the cross pairs too
+		for _, d := range allDists {
+			for _, av := range allAV[3:] {
+				all = append(all, Config{Dist: d, ABI: av.ABI, Version: av.Ver}, Config{Dist: d, ABI: av.ABI, Version: av.Ver, Full: true, Mode: "complain"})
+			}
+		}
 		return all, compile
 	}
-	// quick: 8 configurations parsed, one --full configuration compiled completely
+	// quick: 8 configurations parsed (+ 2 cross ABI / version pairs), one --full configuration compiled completely
 	d := allDists[seedInt()%len(allDists)]
 	av := primaryAV[seedInt()%len(primaryAV)]
-	return coveringSample(all, 8, seedInt()), []Config{{Dist: d, ABI: av.ABI, Version: av.Ver, Full: true, Mode: allModes[seedInt()%3]}}
+	parse = coveringSample(all, 8, seedInt())
+	cross := allAV[3:]
+	parse = append(parse, Config{Dist: allDists[(seedInt()+1)%len(allDists)], ABI: 3, Version: cross[seedInt()%2].Ver},
+		Config{Dist: allDists[(seedInt()+2)%len(allDists)], ABI: 4, Version: "3.0", Full: true, Mode: allModes[(seedInt()+1)%3]})
+	return parse, []Config{{Dist: d, ABI: av.ABI, Version: av.Ver, Full: true, Mode: allModes[seedInt()%3]}}
 }
 
 func sourceTextIndex() map[string]string {
@@ -235,7 +245,7 @@ func TestC01_Shipped(t *testing.T) {
 	if err := refAvailable(); err != nil {
 		t.Fatalf("INFRA: %v", err)
 	}
-	ev := NewEv(t, "C01", "shipped", "the shipped tree built with the real binary for a set of configurations (all 90 primary configurations in thorough, plus a full DFA compilation of 10; a seeded covering sample of 8 in quick: every distribution, every ABI/version pair, every mode, full and normal); every top-level file of .build/apparmor.d is parsed by apparmor_parser 3.0.8 (-Q -K) over an overlay of the upstream policy directory and the build output; every abstraction and mapping through a stub profile. For ABI 4 targets only abi/4.0 -> abi/3.0 and the four AppArmor-4-only rule kinds are set aside. Non-trivial: a (configuration, file) pair whose built text differs from its source; distinct by configuration + file + content hash")
+	ev := NewEv(t, "C01", "shipped", "the shipped tree built with the real binary for a set of configurations (all 90 primary configurations and 30 with the cross ABI / version pairs in thorough, plus a full DFA compilation of 10; a seeded covering sample of 8 in quick - every distribution, every ABI/version pair, every mode, full and normal - plus 2 cross pairs); every top-level file of .build/apparmor.d is parsed by apparmor_parser 3.0.8 (-Q -K) over an overlay of the upstream policy directory and the build output; every abstraction and mapping through a stub profile. For ABI 4 targets only abi/4.0 -> abi/3.0 and the four AppArmor-4-only rule kinds are set aside. Non-trivial: a (configuration, file) pair whose built text differs from its source; distinct by configuration + file + content hash")
 	ev.Assume("apparmor_parser 3.0.8 with the upstream 3.0.8 policy tree is the reference parser", "for version 4.1 the five files that `configure` removes are taken from the source tree as stand-ins for upstream 4.1")
 	parseCfgs, compileCfgs := c01Configs()
 	ev.Exhaustive = isThorough()
